@@ -2,6 +2,7 @@ package main
 
 import (
 	"fmt"
+	"os"
 	"go/constant"
 	"go/token"
 	"go/types"
@@ -320,7 +321,10 @@ func (e *Engine) enterLoop(fr *Frame, li *loopInfo, st *State) *State {
 		mark = e.ctx.n
 		ml := len(e.ctx.lines)
 		e.dry++
+		savedRec := e.recorders
+		e.recorders = nil // the scratch havoc is not a write of the program
 		e.havoc(scratch, coarse, "dry")
+		e.recorders = savedRec
 		e.dry--
 		ws2 := dry(scratch, ml)
 		for _, hw := range ws2.heap {
@@ -344,6 +348,15 @@ func (e *Engine) enterLoop(fr *Frame, li *loopInfo, st *State) *State {
 		ws2.alloc = ws2.alloc || ws.alloc
 		ws2.all = ws2.all || ws.all
 		ws = ws2
+	}
+	if os.Getenv("GOCV_DEBUG") != "" && e.dry == 0 {
+		fmt.Fprintf(os.Stderr, "loop %s%d of %s: all=%v mark=%d\n", fr.label, li.ordinal, fr.fn.Name(), ws.all, mark)
+		for k, hw := range ws.heap {
+			fmt.Fprintf(os.Stderr, "   %s whole=%v refs=%d\n", k, hw.whole, len(hw.refs))
+			for r := range hw.refs {
+				fmt.Fprintf(os.Stderr, "        %s (maxid %d)\n", r, maxID(r))
+			}
+		}
 	}
 	// havoc and assume invariants
 	h := st.clone()
